@@ -13,6 +13,10 @@ pub struct StructInfo {
     pub needs_f: bool,
     pub derives: Vec<String>,
     pub has_lifetime: bool,
+    /// the generic parameters that set `has_lifetime` are lifetimes only and every reference in a field
+    /// is shared: the struct is a read-only view (`&'a [X]` is a list, `&'a X` an `X`) and can be a Lean
+    /// structure; its declaration is emitted next to its impl, not into `Types.lean`
+    pub ref_view: bool,
     pub other_attrs: Vec<String>,
     pub module: String,
 }
@@ -38,13 +42,32 @@ pub fn collect_struct(module: &str, s: &ItemStruct) -> StructInfo {
     let name = s.ident.to_string();
     let mut params = Vec::new();
     let mut has_lifetime = false;
+    let mut has_const = false;
     for g in &s.generics.params {
         match g {
             syn::GenericParam::Type(t) => params.push(t.ident.to_string()),
             syn::GenericParam::Lifetime(_) => has_lifetime = true,
-            syn::GenericParam::Const(_) => has_lifetime = true,
+            syn::GenericParam::Const(_) => {
+                has_lifetime = true;
+                has_const = true;
+            }
         }
     }
+    fn has_mut_ref(ty: &Type) -> bool {
+        match ty {
+            Type::Reference(r) => r.mutability.is_some() || has_mut_ref(&r.elem),
+            Type::Slice(s) => has_mut_ref(&s.elem),
+            Type::Array(a) => has_mut_ref(&a.elem),
+            Type::Paren(p) => has_mut_ref(&p.elem),
+            Type::Tuple(t) => t.elems.iter().any(has_mut_ref),
+            Type::Path(p) => p.path.segments.iter().any(|seg| match &seg.arguments {
+                PathArguments::AngleBracketed(ab) => ab.args.iter().any(|a| matches!(a, GenericArgument::Type(t) if has_mut_ref(t))),
+                _ => false,
+            }),
+            _ => true,
+        }
+    }
+    let ref_view = has_lifetime && !has_const && !s.fields.iter().any(|f| has_mut_ref(&f.ty));
     let (tuple, fields) = match &s.fields {
         Fields::Named(n) => (
             false,
@@ -102,7 +125,7 @@ pub fn collect_struct(module: &str, s: &ItemStruct) -> StructInfo {
             }
         }
     }
-    StructInfo { name, params, tuple, fields, needs_f: false, derives, has_lifetime, other_attrs, module: module.into() }
+    StructInfo { name, params, tuple, fields, needs_f: false, derives, has_lifetime, ref_view, other_attrs, module: module.into() }
 }
 
 pub fn path_str(p: &syn::Path) -> String {
@@ -283,7 +306,7 @@ pub fn ty_to_lean(ty: &Type, cx: &TyCtx, structs: &BTreeMap<String, StructInfo>)
                 return Ok(g.clone());
             }
             if let Some(s) = structs.get(&id) {
-                if s.has_lifetime {
+                if s.has_lifetime && !s.ref_view {
                     return Err(format!("struct {id} has lifetime parameters"));
                 }
                 if args.len() != s.params.len() {
